@@ -39,6 +39,7 @@ def checkRsm : P String := do
     | some x => x.nrows
     | none => 0
   let nontriv := nb ≥ 2 && f.nrows > nb
-  pure s!"c18={c18} corr={corr} nontrivial={if nontriv then 1 else 0} st_buckets={min nb 6} st_status={st}"
+  let c20 := if st == "panic" then "fail:panic" else "ok"
+  pure s!"c18={c18} c20={c20} corr={corr} nontrivial={if nontriv then 1 else 0} st_buckets={min nb 6} st_status={st}"
 
 end Goframe.Driver
